@@ -10,7 +10,7 @@ def npLe (a b : Float) : Bool := decide (a ≤ b) || b.isNaN
 
 def finF (x : Float) : Bool := x.isFinite
 
-def errName : Data.Err → String
+private def errName : Data.Err → String
   | .value => "value" | .type => "type" | .notimpl => "notimpl" | .badperm => "badperm"
 
 def getFloatMat (j : Json) (k : String) : Except String (List (List Float)) := do
